@@ -295,6 +295,12 @@ Lemma src_rs_flush_ok : Gen_C06.src_rs_flush =
   "{ if err := s.SaveRegions(s.batchRegions); err != nil { return err } s.cacheSize = 0 s.batchRegions = make(map[string]*metapb.Region, s.batchSize) return nil }".
 Proof. reflexivity. Qed.
 
+(* server/core/region_storage.go: (RegionStorage).Remove, body -- model: delete_region on the write-back backend
+   = drop the pending entry of the batch (cacheSize untouched), then the leveldb key *)
+Lemma src_rs_Remove_ok : Gen_C06.src_rs_Remove =
+  "{ s.mu.Lock() defer s.mu.Unlock() delete(s.batchRegions, key) return s.LeveldbKV.Remove(key) }".
+Proof. reflexivity. Qed.
+
 (* server/core/region_storage.go: ().deleteRegion, body *)
 Lemma src_rs_deleteRegion_ok : Gen_C06.src_rs_deleteRegion =
   "{ return kv.Remove(regionPath(region.GetId())) }".
